@@ -601,6 +601,7 @@ def oracle_world(w):
             common = next(iter(live.values()))["token"]
             facts["winner_chain"] = chain
             facts["winner_tokens"] = win_tokens
+            facts["winner_complete"] = cur is not None and cur == common
             if cur is None or cur != common:
                 knocked = [x["signature"] for x in fails if x["signature"] in ("rollback-before-authorisation", "rewrapped-commit-rollback", "retagged-commit-rollback")]
                 if not knocked and any(w.events.get(n, {}).get("kind") == "commit" and cc in live for (cc, n) in gnf_first):
@@ -659,6 +660,21 @@ def oracle_world(w):
                     else:
                         sig = "winning-message-invalidated"
                     fail("C02", sig, len(w.trace) - 1, f"message {e['mid']} (event {n}, winning branch) is stored at c{c} in state {rows[0]['state']} (epoch tag {rows[0]['epoch']}, record {rec})")
+    # C02 (last sentence): a message created on a LOSING branch (in a state that is not on the agreed MIP-03 chain) is never left
+    # marked valid at a client that converged to the winning branch — however deep the abandoned chain was when it was stored
+    if getattr(w, "quiesced", False) and live and facts.get("winner_tokens") and facts.get("winner_complete"):
+        wt = set(facts["winner_tokens"])
+        for n, e in w.events.items():
+            if e["kind"] != "app" or e["mid"] is None or e.get("rewrap_of") is not None:
+                continue
+            if e["parent_token"] is None or e["parent_token"] < 0 or e["parent_token"] in wt:
+                continue
+            for c, f in live.items():
+                for m in f["msgs"]:
+                    if m["id"].rstrip("!") == e["mid"] and m["state"] == "p":
+                        fail("C02", "losing-message-left-valid", len(w.trace) - 1,
+                             f"message {e['mid']} (event {n}) was created by c{e['sender']} on a losing branch (state T{e['parent_token']}, epoch {e['parent_epoch']}), "
+                             f"yet c{c}, which converged to the winning branch, still holds it as Processed (epoch tag {m['epoch']})")
     # C02: every message created on the winning branch is stored exactly once, valid, at every live client
     if getattr(w, "quiesced", False) and live:
         for n, e in w.events.items():
